@@ -196,7 +196,14 @@ class Check(PropertyCheck):
                 # engine level (abstract engine with the `crash` event; Props/C04Engine.lean)
                 "LLBuild.Engine.C04_continue_clean", "LLBuild.Engine.C04_crash_rolls_back",
                 "LLBuild.Engine.C04_commit_only_at_build_complete", "LLBuild.Engine.C04_no_epoch_reuse_engine",
-                "LLBuild.Engine.C04_committed_rows_good", "LLBuild.Engine.step_invC"]
+                "LLBuild.Engine.C04_committed_rows_good", "LLBuild.Engine.step_invC",
+                # the concrete engine model killed at ANY point of a build, any asynchronous schedule (Lemmas/Refine/Crash*,
+                # Final4; Props/EngineImplCrash.lean): accepted by the monitor with `crash`, hence the statements above hold of it
+                "LLBuild.Refine.refinement_final_crash", "LLBuild.Refine.crashedBuild_refines", "LLBuild.Refine.buildC_refines",
+                "LLBuild.Refine.EngineImpl_sound_crash", "LLBuild.Refine.EngineImpl_sound_C04_continue_clean",
+                "LLBuild.Refine.EngineImpl_sound_C04_state", "LLBuild.Refine.EngineImpl_sound_C04_rows",
+                "LLBuild.Refine.EngineImpl_crash_store", "LLBuild.Refine.EngineImpl_crash_none",
+                "LLBuild.Refine.trun_prefix", "LLBuild.Refine.toEvents_evOfToks", "LLBuild.Refine.EngineImpl_killedTrace"]
     extractors = ["x_sqlitedb", "x_enginefp"]
     harnesses = [("vc03", "plain"), ("vengine", "plain")]
     assumptions = [
